@@ -500,9 +500,80 @@ def run(ctx) -> list[Inst]:
                     file=rel, line=f.node.lineno, props=PROPS))
     insts += _string_tokens(ctx, visitor, rel)
     insts += _left_assoc(ctx, visitor, rel)
-    insts += _classification(ctx, visitor, rel)
+    insts += _classification(ctx, visitor, rel, rules)
     insts += _dedupe(ctx, visitor, rel)
+    insts += _single_atom_multiplicity(ctx, visitor, rel)
     return insts
+
+
+def _single_atom_multiplicity(ctx, visitor, rel):
+    """(k) `mult: multatom (RANGE multatom)?` - a multiplicity written as ONE atom n means n..n: wherever the visitor
+    tests the upper bound for absence (`X['max'] is None`, `in (None, ..)`), what it puts there is the lower bound of
+    the same side, not 'no limit'."""
+    construct = "(k) a multiplicity without an upper bound means min..min"
+    out = []
+
+    def max_of(e):
+        return e if (isinstance(e, ast.Subscript) and isinstance(e.slice, ast.Constant) and e.slice.value == 'max') else None
+
+    def none_test(t):
+        """-> the ['max'] expression a test finds absent when it is TRUE, or None"""
+        if isinstance(t, ast.Compare) and len(t.ops) == 1:
+            m = max_of(t.left)
+            c = t.comparators[0]
+            if m is not None and isinstance(t.ops[0], (ast.Is, ast.Eq)) and isinstance(c, ast.Constant) and c.value is None:
+                return m
+            if m is not None and isinstance(t.ops[0], ast.In) and isinstance(c, (ast.Tuple, ast.List, ast.Set)) \
+                    and any(isinstance(x, ast.Constant) and x.value is None for x in c.elts):
+                return m
+        if isinstance(t, ast.UnaryOp) and isinstance(t.op, ast.Not):
+            return max_of(t.operand)
+        if isinstance(t, ast.BoolOp) and isinstance(t.op, ast.And):
+            for v in t.values:
+                r = none_test(v)
+                if r is not None:
+                    return r
+        return None
+
+    def is_min_of(e, m):
+        return isinstance(e, ast.Subscript) and isinstance(e.slice, ast.Constant) and e.slice.value == 'min' \
+            and ast.dump(e.value) == ast.dump(m.value)
+
+    for f in visitor.methods.values():
+        for n in own_nodes(f.node):
+            if isinstance(n, ast.If):
+                m = none_test(n.test)
+                if m is None:
+                    continue
+                val = None
+                for st in n.body:
+                    if isinstance(st, ast.Assign) and len(st.targets) == 1 and ast.dump(st.targets[0]).replace('Store', 'Load') == ast.dump(m):
+                        val = st.value
+                if val is None:
+                    continue
+            elif isinstance(n, ast.IfExp):
+                m = none_test(n.test)
+                if m is None:
+                    continue
+                val = n.body
+            else:
+                continue
+            if is_min_of(val, m):
+                out.append(Inst(RULE, f.short, construct, 'ok', msg=stmt_text(n.test, 60), file=rel, line=n.lineno, props=PROPS))
+            elif isinstance(val, ast.Constant) and val.value is None and not isinstance(n.test, ast.BoolOp):
+                out.append(Inst(
+                    RULE, f.short, construct, 'violation',
+                    msg=(f"'{stmt_text(n.test, 60)}' maps a missing upper bound to None ('no limit'): an association side "
+                         f"declared with a single number n (grammar: mult -> multatom) means n..n, with None the class "
+                         f"factory emits no maxItems and more assets than declared are accepted"),
+                    file=rel, line=n.lineno, props=PROPS + ('C06',)))
+            else:
+                out.append(Inst(RULE, f.short, construct, 'unproven', msg=f"'{stmt_text(n.test, 50)}' -> '{stmt_text(val, 40)}'",
+                                file=rel, line=n.lineno, props=PROPS, nontrivial=False))
+    if not out:
+        out.append(Inst(RULE, 'malVisitor', construct, 'unproven', msg='no test for a missing upper bound found', file=rel,
+                        line=visitor.node.lineno, props=PROPS, nontrivial=False))
+    return out
 
 
 def _string_tokens(ctx, visitor, rel):
@@ -552,7 +623,7 @@ def _string_tokens(ctx, visitor, rel):
     return insts
 
 
-def _classification(ctx, visitor, rel):
+def _classification(ctx, visitor, rel, rules=None):
     """(e) only the last component of a REACHES expression may become an attackStep: the upward walk of
     _resolve_part_ID_type stops at ReachesContext and at nothing else (requires / let yield fields)."""
     f = visitor.methods.get('_resolve_part_ID_type')
@@ -616,6 +687,7 @@ def _classification(ctx, visitor, rel):
         else:
             out.append(Inst(RULE, f.short, construct2, verdict[0], msg=verdict[2], file=rel, line=verdict[1].lineno,
                             props=PROPS))
+        out += _scan_terminators(f, rel, rules or {})
         return out
     return [Inst(
         RULE, f.short, construct, 'violation',
@@ -623,6 +695,59 @@ def _classification(ctx, visitor, rel):
              f"clause ('<-' requirements, let bodies) get classified as attackStep, although only the last "
              f"component of a reaches expression names an attack step"),
         file=rel, line=f.node.lineno, props=PROPS)]
+
+
+def _scan_terminators(f, rel, rules):
+    """(e3) the scan to the right of a name may give up (answer 'not followed by a dot') only at a token that ends
+    the whole expression: a token that the grammar allows INSIDE an `expr` (closing parenthesis, set operator, '*',
+    '[', ...) can still be followed by the dot that makes the name a field - `(a \\/ b).c`."""
+    construct = "(e) the scan for a following dot gives up only at tokens that cannot occur inside an expression"
+    if 'expr' not in rules:
+        return []
+    inside = set()
+    seen = set()
+    work = ['expr']
+    while work:
+        r = work.pop()
+        if r in seen or r not in rules:
+            continue
+        seen.add(r)
+        for t in rules[r]:
+            if re.fullmatch(r'[A-Z][A-Z_0-9]*', t):
+                inside.add(t)
+            elif re.fullmatch(r'[a-z][A-Za-z_0-9]*', t):
+                work.append(t)
+    out = []
+    for loop in own_nodes(f.node):
+        if not (isinstance(loop, ast.For) and isinstance(loop.iter, ast.Call) and isinstance(loop.iter.func, ast.Name)
+                and loop.iter.func.id == 'range'):
+            continue
+        for n in ast.walk(loop):
+            if not (isinstance(n, ast.If) and isinstance(n.test, ast.Compare) and len(n.test.ops) == 1
+                    and isinstance(n.test.ops[0], (ast.Eq, ast.In)) and '.type' in stmt_text(n.test.left)):
+                continue
+            comp = n.test.comparators[0]
+            elts = comp.elts if isinstance(comp, (ast.Tuple, ast.List, ast.Set)) else [comp]
+            toks = [e.attr for e in elts if isinstance(e, ast.Attribute)]
+            if len(toks) != len(elts) or not toks:
+                continue
+            rets = [x for s in n.body for x in ast.walk(s) if isinstance(x, ast.Return)]
+            if not rets or not all(isinstance(r.value, ast.Constant) for r in rets):
+                continue
+            if all(r.value.value == 'field' for r in rets):
+                continue
+            bad = sorted(t for t in toks if t in inside and t != 'DOT')
+            if bad:
+                out.append(Inst(
+                    RULE, f.short, construct, 'violation',
+                    msg=(f"'{stmt_text(n.test, 70)}' ends the scan at {bad}, which the grammar allows inside an expression "
+                         f"(expr -> parts -> part -> '(' expr ')' ...): a name followed by such a token and then a dot, "
+                         f"e.g. the operands of `(a \\/ b).c`, is compiled as an attackStep instead of a field"),
+                    file=rel, line=n.lineno, props=PROPS))
+            else:
+                out.append(Inst(RULE, f.short, construct, 'ok', msg=f"gives up at {toks}", file=rel, line=n.lineno,
+                                props=PROPS))
+    return out
 
 
 def _dedupe(ctx, visitor, rel):
